@@ -232,6 +232,16 @@ class Pure:
             if r[0] == "a" and all(isinstance(q, int) for q in (r[3][0], r[3][1], x)):
                 return int(r[3][0] <= x <= r[3][1])
             return U
+        if "ops::range::Range::<" in name and name.endswith("::contains"):
+            # a half-open range built as an aggregate `a..b`
+            r, x = args[0], args[1]
+            while isinstance(r, tuple) and r[0] == "rv":
+                r = r[1]
+            while isinstance(x, tuple) and x[0] == "rv":
+                x = x[1]
+            if isinstance(r, tuple) and r[0] == "a" and len(r[3]) == 2 and all(isinstance(q, int) for q in (r[3][0], r[3][1], x)):
+                return int(r[3][0] <= x < r[3][1])
+            return U
         if name.endswith("PartialEq>::eq") or name.endswith("PartialEq::eq") or \
                 name.endswith("PartialEq>::ne") or name.endswith("PartialEq::ne"):
             a, b = args[0], args[1]
